@@ -183,7 +183,12 @@ def check(an, rep, tier):
                     '' if seen[mm] else 'for a basis of size %d the linear '
                     'term T_1 = x is never stored (it is for m = 5): the '
                     'function returns before it' % mm)
+    from .. import rules_proto as _RPZ
+    _RPZ.check_none_vs_zero(prog, rep, modules={'func', 'func_full'})
     rep.floor('F-basis-init', 2, 'basis initialisation')
+    from .. import rules_formula as _RF
+    _RF.check_basis_values(prog, rep, 'func.func_basis', 'm', 'X')
+    rep.floor('F-basis', 4, 'Chebyshev basis values')
     _two_sided(prog, rep, 'func.func_get')
     _two_sided(prog, rep, 'func_full.func_get_full')
 
